@@ -21,8 +21,14 @@ def main():
     a = ap.parse_args()
     seed = int(os.environ.get("VERIF_SEED", "0") or 0)
     mod = importlib.import_module("props.main_" + a.prop.lower())
+    from pyvc.core import MissingFunction
+    from pyvc import driver
     try:
         rc = mod.main(a.tier, seed)
+    except MissingFunction as e:
+        if driver.CURRENT is None or os.environ.get("PYVC_UPDATE_LEDGER") == "1":
+            raise
+        rc = driver.CURRENT.abort_missing(e.qualname)
     except Exception:
         traceback.print_exc()
         print(f"{a.prop}: checker crash (exit 3)")
